@@ -681,6 +681,11 @@ func (rw *respWalker) call(fr *rFrame, pt *rPath, c *ssa.Call, depth int) {
 	// anything else that is handed the response writer has an effect on the response that is not known here
 	for _, a := range com.Args {
 		if isRespWriterType(a.Type()) {
+			if callee != nil && callee.String() == "net/http.MaxBytesReader" {
+				// keeps the writer only to mark the connection for closing when the limit is exceeded: it neither sets the
+				// status nor writes a body (net/http contract)
+				continue
+			}
 			name := "a dynamic call"
 			if callee != nil {
 				name = callee.String()
